@@ -724,6 +724,20 @@ func refreshRing(r *ringDescriber) error {
 
 	prevHosts := r.session.ring.currentHosts()
 
+	// Forget the hosts that are no longer reported before looking at the reported ones:
+	// a replacement node that took over the address of a vanished one must not be
+	// mistaken for it by the address-keyed indexes of the ring and the policies.
+	reportedHostIDs := make(map[string]struct{}, len(hosts))
+	for _, h := range hosts {
+		reportedHostIDs[h.HostID()] = struct{}{}
+	}
+	for hostID, host := range prevHosts {
+		if _, ok := reportedHostIDs[hostID]; !ok {
+			r.session.removeHost(host)
+			delete(prevHosts, hostID)
+		}
+	}
+
 	seenHostIDs := make(map[string]struct{}, len(hosts))
 	for _, h := range hosts {
 		if r.session.cfg.filterHost(h) {
